@@ -479,6 +479,8 @@ def rule_G3(ctx):
     for n in f.walk():
         if n["k"] == "var" and n.get("init") is not None and is_call(strip_casts(n["init"]), "linecount"):
             nins = n["name"]
+        if n["k"] == "bin" and n["op"] == "=" and n["l"]["k"] == "ref" and is_call(strip_casts(n["r"]), "linecount"):
+            nins = n["l"]["name"]
     if nins is None:
         raise AnalysisBroken("lbuf_replace: inserted-line count not found")
     rec = prog.record("lbuf")
@@ -672,6 +674,14 @@ def rule_K5(ctx):
 def rule_O2(ctx):
     ctx.begin("O2", floor=1, what="nested marks recurse with their own direction")
     f = ctx.prog.func("dir_fix", file="dir.c")
+    if not any(True for _ in f.calls("dir_match")):
+        # the loop body may live in a helper of the file that gets the same context direction
+        for c_ in f.calls():
+            h_ = ctx.prog.resolve(f, c_["fn"]) if c_.get("fn") else None
+            if h_ is not None and h_.file == f.file and h_ is not f and any(True for _ in h_.calls("dir_match")) and \
+                    len(h_.params) > 2 and len(c_["args"]) > 2 and key(strip_casts(c_["args"][2])) == f.params[2]["name"]:
+                f = h_
+                break
     own_dir = f.params[2]["name"]
     # the out-variable that dir_match fills with the matched mark's direction
     mdir = None
